@@ -30,7 +30,7 @@ var c13Kinds = func() []string {
 // the shape in which an order-dependent merge shows
 func genC13Overlap(t *rapid.T) *Case {
 	spec := &Spec{Base: "New"}
-	res := []int{0, 1, 2, 4, 7} // ^my-  -y$  ^x-  .*  tag
+	res := []int{0, 1, 2, 4, 7, 10, 11, 12, 0, 10} // ^my-  -y$  ^x-  .*  tag, and second compilations of ^my- .* -y$
 	hostProps := []string{"color", "text-align", "width"}
 	n := rapid.IntRange(2, 12).Draw(t, "nov")
 	hotRe, hotProp := rapid.SampledFrom(res).Draw(t, "hotre"), rapid.SampledFrom(hostProps).Draw(t, "hotprop")
